@@ -42,6 +42,15 @@ theorem C14_entity_headers_placement (q : Req) (e : Ent) (now : Nat) (r : Resp)
        ∀ ph ∈ phs, ∃ pre, ph = pre ++ eachPartHeaders e.headers ++ kCRLF) :=
   entity_headers_placement q e now r h
 
+/-- ... and nothing else: in every response the header lines with an entity-supplied name are
+either exactly the entity's own — same lines, same order, same multiplicity — or absent. No header
+of another origin (another entity, an earlier response) can appear under such a name. -/
+theorem C14_only_this_entitys_headers (q : Req) (e : Ent) (now : Nat) (r : Resp)
+    (h : serve q e now = .ok r) :
+    r.headers.filter isEntHeader = e.headers.map (fun kv => (HName.ent kv.1, HVal.bytes kv.2)) ∨
+    r.headers.filter isEntHeader = [] :=
+  entity_headers_exact q e now r h
+
 /-- Round trip, for every subset of echoed validators, GET or HEAD, any later clock: echoing the
 served ETag in If-None-Match, or the served Last-Modified in If-Modified-Since, yields 304;
 echoing a served strong ETag in If-Match, or the served Last-Modified in If-Unmodified-Since,
